@@ -846,6 +846,111 @@ func c18Writer(c *Ctx) {
 	c18Udp4pkt(c, pkt)
 }
 
+// c18NoStaleHeader: K9 — a header slice handed out by the Lexer (WriteN) stays valid only while the Lexer's
+// buffer is not reallocated. Either the buffer's capacity equals the sum of everything written to it (no
+// write can reallocate), or every use of a header slice precedes every later growing write to the same Lexer.
+func c18NoStaleHeader(c *Ctx, f *ssa.Function, calls []*ssa.Call) {
+	r, sx := c.R, c.Sx()
+	key := func(s string) string { return "nclient4.udp4pkt: " + s }
+	isLex := func(cl *ssa.Call, m string) bool {
+		return cl.Call.StaticCallee() != nil && (strings.HasSuffix(funcKey(cl.Call.StaticCallee()), "uio.Lexer)."+m) || strings.HasSuffix(funcKey(cl.Call.StaticCallee()), "uio.Buffer)."+m))
+	}
+	// additive normal form: constant + multiset of non-constant terms
+	var flat func(v ssa.Value, k *int64, terms *[]string)
+	flat = func(v ssa.Value, k *int64, terms *[]string) {
+		v = stripConv(v)
+		if c0, ok := intConst(v); ok {
+			*k += c0
+			return
+		}
+		if bo, ok := v.(*ssa.BinOp); ok && bo.Op == token.ADD {
+			flat(bo.X, k, terms)
+			flat(bo.Y, k, terms)
+			return
+		}
+		*terms = append(*terms, sx.Of(v).String())
+	}
+	var capK, sumK int64
+	var capT, sumT []string
+	var haveCap bool
+	allInstrs(f, func(in ssa.Instruction) {
+		if ms, ok := in.(*ssa.MakeSlice); ok {
+			for _, ref := range *ms.Referrers() {
+				if cl, ok := ref.(*ssa.Call); ok && isFuncCall(cl.Common(), uioPath, "NewBigEndianBuffer") {
+					flat(ms.Cap, &capK, &capT)
+					haveCap = true
+				}
+			}
+		}
+	})
+	var growth []int
+	var headers []ssa.Value
+	for i, cl := range calls {
+		switch {
+		case isLex(cl, "WriteN"), isLex(cl, "Append"):
+			flat(cl.Call.Args[1], &sumK, &sumT)
+			growth = append(growth, i)
+			headers = append(headers, cl)
+		case isLex(cl, "WriteBytes"):
+			if ln, ok := cl.Call.Args[1].(ssa.Value); ok {
+				sumT = append(sumT, "len("+sx.Of(ln).String()+")")
+			}
+			growth = append(growth, i)
+		case isLex(cl, "Write8"), isLex(cl, "Write16"), isLex(cl, "Write32"), isLex(cl, "Write64"):
+			w := map[string]int64{"Write8": 1, "Write16": 2, "Write32": 4, "Write64": 8}[cl.Call.StaticCallee().Name()]
+			sumK += w
+			growth = append(growth, i)
+		}
+	}
+	sort.Strings(capT)
+	sort.Strings(sumT)
+	exact := haveCap && capK == sumK && strings.Join(capT, "+") == strings.Join(sumT, "+")
+	if exact {
+		r.OK("C18-K9", key("header slices stay valid: buffer capacity equals the bytes written"), c.P.pos(f.Pos()), "cap(make) = Σ write sizes (additive normal form)", fmt.Sprintf("%d + %s", capK, strings.Join(capT, " + ")))
+		return
+	}
+	// otherwise: every use of a header slice precedes every later growing write
+	idxOf := map[*ssa.Call]int{}
+	for i, cl := range calls {
+		idxOf[cl] = i
+	}
+	bad := ""
+	for _, h := range headers {
+		hi := idxOf[h.(*ssa.Call)]
+		// aliases of the header slice
+		seen := map[ssa.Value]bool{}
+		work := []ssa.Value{h}
+		for len(work) > 0 {
+			v := work[len(work)-1]
+			work = work[:len(work)-1]
+			if seen[v] {
+				continue
+			}
+			seen[v] = true
+			for _, ref := range *v.Referrers() {
+				switch x := ref.(type) {
+				case *ssa.ChangeType:
+					work = append(work, x)
+				case *ssa.Slice:
+					work = append(work, x)
+				case *ssa.Call:
+					ui, ok := idxOf[x]
+					if !ok {
+						continue
+					}
+					for _, g := range growth {
+						if g > hi && g < ui {
+							bad = fmt.Sprintf("%s at %s uses a header slice after the Lexer grew again at %s", calleeName(x.Common()), c.P.ipos(x), c.P.ipos(calls[g]))
+						}
+					}
+				}
+			}
+		}
+	}
+	r.Check(bad == "", "C18-K9", key("no header slice is used after a later growing write (buffer capacity is not the exact frame size)"), c.P.pos(f.Pos()), "uses of WriteN results precede later Lexer writes",
+		"the buffer's capacity ("+fmt.Sprintf("%d + %s", capK, strings.Join(capT, " + "))+") is not the sum of the bytes written ("+fmt.Sprintf("%d + %s", sumK, strings.Join(sumT, " + "))+"): a write can reallocate, and "+bad+": the bytes stored through it never reach the frame")
+}
+
 func c18Udp4pkt(c *Ctx, f *ssa.Function) {
 	r, sx := c.R, c.Sx()
 	key := func(s string) string { return "nclient4.udp4pkt: " + s }
@@ -937,6 +1042,7 @@ func c18Udp4pkt(c *Ctx, f *ssa.Function) {
 	udpEncI := idx(func(cl *ssa.Call) bool { return name(cl) == "(dhcpv4/nclient4.udp).encode" })
 	udpCkI := idx(func(cl *ssa.Call) bool { return name(cl) == "(dhcpv4/nclient4.udp).setChecksum" })
 	wbI := idx(func(cl *ssa.Call) bool { return strings.HasSuffix(name(cl), "uio.Lexer).WriteBytes") })
+	c18NoStaleHeader(c, f, calls)
 	if ipEncI < 0 || ipCkI < 0 || udpEncI < 0 || udpCkI < 0 || wbI < 0 {
 		r.Violation("C18-K6", key("steps present"), c.P.pos(f.Pos()), fmt.Sprintf("encode/setChecksum/WriteBytes calls: %d %d %d %d %d", ipEncI, ipCkI, udpEncI, udpCkI, wbI))
 		return
